@@ -444,6 +444,9 @@ def check(prop, tier, seed):
         simple.validate(prop, 'Trace_Call', verdict, ev, path, label, cov, clause_filter=clause_filter(prop), harness_clauses=HARNESS)
         cov['samples'].append({'family': label, 'stimulus': simple.sample_of(stims)})
     extra = []
+    if prop == 'C05':
+        from . import p_web
+        p_web.bridge_family(prop, tier, seed, verdict, cov, tag)
     if prop == 'C08':
         from . import p_meta
         p_meta.add_families(prop, tier, seed, verdict, cov, mc, tag)
